@@ -90,17 +90,35 @@ pub fn main(args: &[String]) -> i32 {
     let shared = Arc::new(Flat::parse(shared_text).expect("shared expression must parse"));
     let fshared = Arc::new(FlatEx::<f64>::parse(&ftexts[0]).expect("shared float expression must parse"));
     let dshared: Arc<DeepEx<'static, f64>> = Arc::new(DeepEx::parse(Box::leak(ftexts[0].clone().into_boxed_str())).expect("deep"));
+    // shared expressions with more than 64 and more than 128 operands (slice trackers of different lengths), evaluated by
+    // half of the threads in the order short -> long and by the other half long -> short (per-thread hidden state shows)
+    let bigs: Vec<(&'static str, Arc<Flat>)> = cfg["bigtexts"].as_array().map(|a| a.iter().map(|t| {
+        let txt: &'static str = Box::leak(uncps(t).into_boxed_str());
+        (txt, Arc::new(Flat::parse(txt).expect("big shared expression must parse")))
+    }).collect()).unwrap_or_default();
     let dump_before = (shared.verif_dump(), fshared.verif_dump(), dshared.verif_dump());
     let nv = fshared.var_names().len();
     let fvals = move |tid: usize, r: usize| -> Vec<f64> { (0..nv).map(|j| 0.25 + tid as f64 * 0.5 + r as f64 * 0.125 + j as f64).collect() };
     let barrier = Arc::new(Barrier::new(nthreads));
     let mut handles = vec![];
     for tid in 0..nthreads {
-        let (table, shared, fshared, dshared, barrier) = (table.clone(), shared.clone(), fshared.clone(), dshared.clone(), barrier.clone());
+        let (table, shared, fshared, dshared, barrier, bigs) = (table.clone(), shared.clone(), fshared.clone(), dshared.clone(), barrier.clone(), bigs.clone());
         handles.push(std::thread::spawn(move || {
             dynops::set_table(table);
             let mut ev = vec![];
             barrier.wait();
+            let order: Vec<usize> = if tid % 2 == 0 { (0..bigs.len()).collect() } else { (0..bigs.len()).rev().collect() };
+            for (q, b) in order.into_iter().enumerate() {
+                let (txt, ex) = &bigs[b];
+                let vals: Vec<Term> = ex.var_names().iter().map(|n| Term::Var(format!("{n}#t{tid}"))).collect();
+                let den = crate::util::guarded(|| ex.eval(&vals));
+                let (outcome, den) = match den {
+                    Ok(Ok(d)) => ("ok", d.to_json()),
+                    Ok(Err(_)) => ("err", json!({"k": "none"})),
+                    Err(_) => ("panic", json!({"k": "none"})),
+                };
+                ev.push(json!({"tid": tid, "seq": 900 + q, "act": "eval", "text": cps(txt), "suffix": cps(&format!("#t{tid}")), "outcome": outcome, "den": den}));
+            }
             for r in 0..rounds {
                 let vals: Vec<Term> = shared.var_names().iter().map(|n| Term::Var(format!("{n}#t{tid}"))).collect();
                 let den = crate::util::guarded(|| shared.eval(&vals));
